@@ -71,10 +71,11 @@ var Properties = map[string]PropertyDef{
 	"C04": {Cases: C04Cases, Config: func(tier string) Config {
 		c := Config{
 			Functions: []string{"gennaro.Participant.Round1/Round2/Round3 (consuming rounds under deviation)", "gennaro message Validate", "network.ValidateIncomingMessages", "pedersen.Scheme.Verify", "feldman.Scheme.Verify", "fiatshamir Verifier.Verify / zkmodule.Verify", "batch_schnorr / okamoto Verify", "base.GetMaliciousIdentities / ShouldAbort", "mpc.NewBaseShard",
-				"redistribute.Participant.Round2/Round3 and Round1Broadcast/Round1P2P/Round2Broadcast/Round2P2P.Validate under deviation", "hjky.Participant.Round2 under deviation", "lindell22 signing.Cosigner.Round2/Round3, Aggregator.Aggregate under deviation", "canetti.Participant.Round2/Round3/Round4 under deviation"},
+				"redistribute.Participant.Round2/Round3 and Round1Broadcast/Round1P2P/Round2Broadcast/Round2P2P.Validate under deviation", "hjky.Participant.Round2 under deviation", "lindell22 signing.Cosigner.Round2/Round3, Aggregator.Aggregate under deviation", "canetti.Participant.Round2/Round3/Round4 under deviation", "dkls23 signing_bbot Cosigner.Round3/Round4 and rvole/bbot Bob.Round4 under deviation"},
 			Bounds: map[string]any{"deviation": "one field of one message of one sender (per-recipient for unicasts, uniform for broadcasts), or the deviator's whole dealing / starting shard replaced by a self-consistent forgery; offset δ symbolic with δ≠0",
 				"faults gennaro":      "unicast share secret/blinding component, Pedersen / Feldman vector entries (proof unchanged), Feldman vector re-proved by the deviator for another column, vectors truncated/extended by one entry, dropped broadcast",
 				"faults canetti":      "round-1 commitment bit, opened message: vector entry shifted (δ), rho bit, witness bit, wrong sharing ID; private share shifted / extended / truncated; round-3 proof response / commitment shifted (δ)",
+				"faults dkls23":       "DKLs23 (bbot) signing, 2-party quorum: opened nonce point R (round 2), public key share (round 3 broadcast), Γ_U, Γ_V, one entry of the RVOLE ATilde matrix, one entry of η (round 3 unicast), each shifted by δ: every honest cosigner rejects, blames the deviator where the check is per-sender, abort demanded",
 				"faults lindell22":    "partial signature response / nonce commitment, opened nonce, zero-sharing dealing replaced by a consistent dealing of δ (deviator at each of the 3 positions), zero share shifted",
 				"faults redistribute": "zero-sharing dealing of δ, zero share / zero vector entry shifted, next-share contribution shifted / extended / truncated, next / previous / zero verification vector entries shifted, forged self-consistent previous shard; refresh, recovery with and without anchor, redistribution to multi-row structures; deviator at every previous-holder position",
 				"structures":          "threshold, CNF, non-ideal gate tree (3 parties); more in thorough"},
